@@ -23,6 +23,8 @@ macro_rules! tys { ($p:ident, $q:ident, $r:ident) => {
     #[derive(Clone, Copy, Debug, PartialEq)] #[repr(transparent)] pub struct $p(pub u8);
     #[derive(Clone, Copy, Debug, PartialEq)] pub struct $q(pub u8);
     #[derive(Clone, Copy, Debug, PartialEq)] pub struct $r(pub u8);
+    // inherent methods named like the conversion methods: method-call syntax in an expansion would reach these
+    impl $p { pub fn from<X>(_x: X) -> $p { $p(213) } pub fn into<X: From<$p>>(self) -> X { X::from($p(214)) } }
     impl From<$q> for $p { fn from(q: $q) -> $p { COUNT.fetch_add(1, Ordering::SeqCst); $p(q.0) } }
     impl From<$p> for $r { fn from(p: $p) -> $r { COUNT.fetch_add(1, Ordering::SeqCst); $r(p.0) } }
 } }
@@ -36,6 +38,11 @@ macro_rules! conv { ($p:ident, $t:ident) => {
     impl<'a> From<&'a mut $p> for &'a mut $t { fn from(p: &'a mut $p) -> &'a mut $t { COUNT.fetch_add(1, Ordering::SeqCst); unsafe { &mut *(p as *mut $p as *mut $t) } } }
 } }
 conv!(P1, RS1); conv!(P2, RS2); conv!(P1, ZF1); conv!(P2, ZF2);
+// modules named like the words the attribute grammars know: a listed type may be reached through them (`types::Q1`)
+pub mod types { pub use super::*; } pub mod forward { pub use super::*; }
+pub mod owned { pub use super::*; } pub mod ref_mut { pub use super::*; }
+// on a struct, `#[from(skip)]` lists a type that happens to be called `skip`
+#[allow(non_camel_case_types)] pub type skip = Q1; #[allow(non_camel_case_types)] pub type ignore = Q1;
 macro_rules! impls { ($t:ty : $($tr:tt)+) => {{
     trait Fb { const V: bool = false; } impl<T: ?Sized> Fb for T {}
     struct W<T: ?Sized>(core::marker::PhantomData<T>);
@@ -71,8 +78,13 @@ def from_module(c, key):
     for j, v in enumerate(vs):
         P, Q = f"P{j + 1}", f"Q{j + 1}"
         n = v["n"]
+        # half of the typed lists spell their types through modules named like attribute keywords
+        kw = ["types", "forward"]
+        qs = [f"{kw[(j + i) % 2]}::{Q}" for i in range(n)] if vlib.seeded_pick(key + str(j), 9, 2) == 0 else [Q] * n
+        if not is_enum and n == 1 and j == 0 and vlib.seeded_pick(key, 19, 2) == 0:
+            qs = [["skip", "ignore"][vlib.seeded_pick(key, 23, 2)]]      # type aliases of Q1 named like the variant keywords
         attr = {"none": "", "from": "#[from] ", "skip": "#[from(skip)] ", "forward": "#[from(forward)] ",
-                "types": f"#[from({tup([Q] * n)})] "}[v["attr"]]
+                "types": f"#[from({tup(qs)})] "}[v["attr"]]
         if not is_enum and v["attr"] in ("from", "skip"):
             attr = ""
         if n == 0:
@@ -247,7 +259,9 @@ def into2_module(c, key):
     mem = lambda f: ("abc"[f - 1] if named else str(f - 1))
     comp_tys = [ftys[f - 1] for f in comps]
     comp_typed = ["RS" + t[1] for t in comp_tys]
-    s_typed_target = tup(comp_typed) if len(comp_typed) != 1 else comp_typed[0]
+    kwm = ["owned", "ref_mut", "types", "forward"]
+    spelled = [f"{kwm[i % 4]}::{t}" for i, t in enumerate(comp_typed)] if vlib.seeded_pick(key, 13, 2) == 0 else comp_typed
+    s_typed_target = tup(spelled) if len(spelled) != 1 else spelled[0]
     struct_attr = into_attr_text(sa, s_typed_target).strip()
     fields = []
     for f in range(n):
